@@ -15,6 +15,8 @@ func runC14() {
 	e1, n1 := forkx.Lookups(run)
 	e2, n2 := forkx.Chains(run)
 	e3, n3 := forkx.Constants(run)
+	e4, n4 := forkx.Envelopes(run, sszPresets(run.Tier)[:3])
+	e3, n3 = e3+e4, n3+n4
 	run.Set("evaluations", e1+e2+e3)
 	run.Set("distinct_nontrivial", n1+n2+n3)
 	run.Set("parts", map[string]int64{"lookup_cases": e1, "chain_steps_and_blocks": e2, "constants": e3})
